@@ -137,11 +137,13 @@ structure State where
   sync : Bool
   flushQ : Option Nat
   threads : List Thread
+  /-- identifiers of all calls issued so far (a call is never re-issued). -/
+  used : List Nat
   deriving DecidableEq, Repr
 
 def init (watch : Bool) : State :=
   { watch := watch, sess := none, arch := none, entry := false, disabled := false, running := false,
-    crit := none, loop := none, gen := 0, sync := false, flushQ := none, threads := [] }
+    crit := none, loop := none, gen := 0, sync := false, flushQ := none, threads := [], used := [] }
 
 def newLoop (pc : LPC) (held : Bool) : Loop :=
   { pc := pc, a := 0, b := 0, ha := held, hb := held, cancelled := false, req := none, forced := false,
@@ -339,14 +341,16 @@ def threadSteps (s : State) (th : Thread) : List (Label × State) :=
   | .pending =>
     match th.op with
     | .create paused =>
-      if s.entry || s.sess.isSome then [(.tau, finish s th .noMatch)]
+      -- (a session is created once, before any other call on it is issued)
+      if !othersIdle s th.id || s.crit.isSome || s.loop.isSome then []
+      else if s.entry || s.sess.isSome then [(.tau, finish s th .noMatch)]
       else if paused then
         [(.tau, finish { s with sess := some true, arch := some false, entry := true, disabled := false, running := false } th .ok)]
-      else if s.crit.isNone then
-        [(.tau, ({ s with crit := some (th.id, .connA), disabled := false }).setThread { th with ph := .inside })]
-      else []
+      else
+        [(.tau, ({ s with crit := some (th.id, .connA), disabled := false, running := false }).setThread { th with ph := .inside })]
     | .restart =>
-      if !othersIdle s th.id then []
+      -- (Manager.Shutdown takes each controller's lifecycle lock)
+      if !othersIdle s th.id || s.crit.isSome then []
       else if !s.entry || s.disabled then [(.tau, s.setThread { th with ph := .reload })]
       else if s.running then
         [(.tau, ({ s with crit := some (th.id, .stopping) }.cancelLoop).setThread { th with ph := .inside })]
@@ -372,7 +376,9 @@ def threadSteps (s : State) (th : Thread) : List (Label × State) :=
     | none => []
   | .termDel => [(.tau, finish { s with entry := false } th .ok)]
   | .reload =>
-    -- NewManager: load what is on disk
+    -- NewManager: load what is on disk into a fresh controller (the old one was
+    -- shut down: no loop, lock free)
+    if s.loop.isSome || s.crit.isSome then [] else
     match s.sess with
     | some p =>
       let s1 : State := { s with entry := true, disabled := false, running := false, crit := none }
@@ -400,8 +406,8 @@ def succ (s : State) : List (Label × State) :=
 
 /-- A client issues a call. -/
 def doCall (s : State) (t : Nat) (op : Op) : Option State :=
-  if s.threads.any (fun x => x.id == t || x.op == .restart) then none
-  else some { s with threads := s.threads ++ [mkThread t op] }
+  if s.used.contains t || s.threads.any (fun x => x.op == .restart) then none
+  else some { s with threads := s.threads ++ [mkThread t op], used := t :: s.used }
 
 /-- The step relation. -/
 inductive Step : State → Label → State → Prop
